@@ -23,6 +23,16 @@ LAYOUT_GRAMMARS = [
 ]
 
 
+# grammars on which the iteration order of the revisit set (a CPython set of state ids) changes
+# the forest: found by running the impl with the native, ascending and descending order
+ORDER_SENSITIVE = [
+    ("ord1", "S: EMPTY | 'a' S | B S;\nA: EMPTY | 'a' B | 'a' 'a';\nB: EMPTY | 'b' | S A;", "ab", 3),
+    ("ord2", "S: A B | A;\nA: 'b' 'b' | EMPTY;\nB: S | 'a' | S S;", "ab", 3),
+    ("ord3", "S: B A | S S;\nA: EMPTY | 'b' 'b' 'b' | A S;\nB: 'a' 'a' 'b' | A 'b' S | EMPTY;", "ab", 3),
+    ("ord4", "S: 'b' 'b' | 'b' | A;\nA: S A S | A A | EMPTY;", "b", 4),
+]
+
+
 # ----------------------------------------------------------------------------- impl side
 def graph_of(forest, gi, cap):
     """all Parent objects reachable from the root: (root index, nodes); None when > cap"""
@@ -304,6 +314,10 @@ def gen_jobs(rng, quick, consume):
         jobs.append((name + "_ld", text, list(gramgen.all_strings(list(alpha), 4 if quick else 5)), ol))
     for name, text, inputs in LAYOUT_GRAMMARS:
         for o in (o1, ol):
+            jobs.append((name, text, inputs, o))
+    for name, text, alpha, ml in ORDER_SENSITIVE:
+        inputs = list(gramgen.all_strings(list(alpha), ml if quick else ml + 2))
+        for o in (o1, o0):
             jobs.append((name, text, inputs, o))
     # no ws at all, and a start position
     jobs.append(("ss_nows", "S: S S | 'a';", ["aaa", "a a", " aa"], dict(o1, ws="")))
